@@ -226,6 +226,10 @@ def run_cfg(ctx, cfg, entry, sample_mod=1, paired=False, focus=None, tag="rd"):
         if r is None:
             continue
         if "harness_exception" in r:
+            lf = core.library_failure(r)
+            if lf is not None:
+                ctx.violation(lf)
+                continue
             raise tlc.MachineryError("replay worker failed: %s\n%s" % (r["harness_exception"], r["tb"]))
         ctx.count(r["n"])
         ctx.traces += 1
